@@ -103,15 +103,16 @@ def constCtl (flags : Nat) : Controller Unit :=
     startTag := fun _ _ _ => ((), .flags (Flags.ofNat flags))
     auxInfo := fun _ _ => ((), .ok (Flags.ofNat flags))
     endTag := fun _ _ => ((), Flags.ofNat flags)
-    token := fun _ t => ((), .ok { chunks := [t.raw] })
+    token := fun _ t => ((), { chunks := [t.raw] })
     shouldEmit := fun _ => true
-    handleEnd := fun _ => ((), .ok [])
+    handleEnd := fun _ => ((), [], none)
     bailOut := fun _ _ => ((), []) }
 
 theorem constCtl_observing (f : Nat) : ObservingAll (constCtl f) where
-  token_raw := by intro g t out h; simp [constCtl] at h; subst h; simp
+  token_raw := by intro g t _; simp [constCtl]
+  token_err := by intro g t e h; simp [constCtl] at h
   shouldEmit := by intro g; rfl
-  handleEnd_empty := by intro g cs h; simp [constCtl] at h; subst h; rfl
+  handleEnd_empty := by intro g; rfl
 
 /-- the world the driver runs: tables regenerated from /repo -/
 def genWorld (f : Nat) : World Unit := ⟨Gen.Syntax.table, Gen.Tags.cfg, constCtl f⟩
